@@ -51,6 +51,7 @@ def pipelines(prob, k):
         "bil23": [mc, wta, ("filter", {"filter_method": "bilateral", "sigma_space": 2.3, "sigma_color": 2.0})],
         "cbca_val": [mc, ("aggregation", {"aggregation_method": "cbca", "cbca_distance": 3}), wta, ("refinement", {"refinement_method": "vfit"}),
                      ("validation", {"validation_method": "cross_checking_accurate", "interpolated_disparity": "mc-cnn"})],
+        "sgm_val": [mc, wta, ("validation", {"validation_method": "cross_checking_accurate", "interpolated_disparity": "sgm"})],
         "val_sfx": [mc, wta, ("validation.xc", {"validation_method": "cross_checking_accurate"}), ("filter", {"filter_method": "median"})],
         "ms": [mc, wta, ("multiscale", {"multiscale_method": "fixed_zoom_pyramid", "num_scales": 2, "scale_factor": 2}),
                ("filter", {"filter_method": "median"})],
